@@ -35,27 +35,38 @@ def run(ctx):
     where = f"{BI}:_SmartAddHelper.add"
     g = build_cfg(fn)
     ctx.fact(len(g.nodes))
-    walk = [n.id for n in g.nodes if n.kind == "for" and norm(n.ast.iter) == "things_to_add"]
+    from ..astutil import bound_names, loop_targets, one
+
+    # role binding: the walk's locals are found by what they hold, not by their names
+    tta = one(bound_names(fn, lambda t, n: t.startswith("list(self._gather_dirs_to_add(")), "things_to_add = list(self._gather_dirs_to_add(user_dirs))", where)
+    wt_ = one(loop_targets(fn, lambda t, n: t == tta), "loop over things_to_add", where)
+    ctx.require(len(wt_) == 4, f"{where}: the walk does not unpack (directory, inv_path, this_ie, parent_ie)")
+    v_dir, _v_inv, v_ie, _v_par = wt_
+    ff = [s_ for s_ in walk_own(fn) if isinstance(s_, ast.Try) and any(call_attr(c) == "find_format" for c in calls_in(s_))]
+    ctx.require(len(ff) == 1, f"{where}: try block around find_format not found")
+    v_sub = one([norm(x.targets[0]) for x in ff[0].body if isinstance(x, ast.Assign) and norm(x.value) == "True"], "sub_tree = True after find_format", where)
+    v_glob = one(bound_names(fn, lambda t, n: ".is_ignored(" in t), "ignore_glob = self.tree.is_ignored(subp)", where)
+    v_subp = one(bound_names(fn, lambda t, n: t.startswith(f"osutils.pathjoin({v_dir}, ")), "subp = osutils.pathjoin(directory, subf)", where)
+    walk = [n.id for n in g.nodes if n.kind == "for" and norm(n.ast.iter) == tta]
     ctx.require(len(walk) >= 1, f"{where}: loop over things_to_add not found")
     add = need(where, [i for i in calling(g, attr="_add_one_and_parent", recv="self") if set(g.loops_of(i)) & set(walk)], "_add_one_and_parent inside the recursive walk")
     listing = need(where, _listing_loops(g), "os.listdir loop")
-    sched = [n.id for n in g.nodes if n.kind == "stmt" and any(call_attr(c) == "append" and call_recv(c) == "things_to_add" and len(c.args) == 1 and isinstance(c.args[0], ast.Tuple) and norm(c.args[0].elts[2]) == "None" for c in n.calls())]
+    sched = [n.id for n in g.nodes if n.kind == "stmt" and any(call_attr(c) == "append" and call_recv(c) == tta and len(c.args) == 1 and isinstance(c.args[0], ast.Tuple) and norm(c.args[0].elts[2]) == "None" for c in n.calls())]
     need(where, sched, "things_to_add.append((subp, …, None, …))")
-    all_sched = calling(g, attr="append", recv="things_to_add")
+    all_sched = calling(g, attr="append", recv=tta)
 
     def unreachable(env, nodes):
         return not (set(nodes) & g.assume(env).reachable_from_entry())
 
-    ctx.check("control-files-excluded", where, unreachable({"self.tree.is_control_filename(subp)": True}, [s for s in all_sched if g.loops_of(s) and g.loops_of(s)[-1] in listing]), "a control file found while recursing is never scheduled")
-    ctx.check("ignored-excluded", where, unreachable({"ignore_glob is not None": True}, sched), "an ignored unversioned path found while recursing is never scheduled")
+    ctx.check("control-files-excluded", where, unreachable({f"self.tree.is_control_filename({v_subp})": True}, [s for s in all_sched if g.loops_of(s) and g.loops_of(s)[-1] in listing]), "a control file found while recursing is never scheduled")
+    ctx.check("ignored-excluded", where, unreachable({f"{v_glob} is not None": True, f"{v_glob} is None": False}, sched), "an ignored unversioned path found while recursing is never scheduled")
     ign = need(where, calling(g, attr="is_ignored"), "is_ignored(...)")
     ctx.check("ignored-reported", where, any(call_attr(c) == "append" and "self.ignored" in norm(c) for c in calls_in(fn)), "ignored paths are reported back")
     ctx.check("named-paths-not-ignore-tested", where, all(g.loops_of(i) and g.loops_of(i)[-1] in listing for i in ign), "is_ignored is applied only to paths found by listing a directory, not to the paths the user named", message="explicitly named paths are subjected to the ignore test")
-    ctx.check("nested-trees-excluded", where, unreachable({"this_ie is not None": False, "sub_tree": True}, add) and unreachable({"sub_tree": True, "not sub_tree": False}, listing), "a nested tree is neither added nor descended into")
-    ff = [s for s in walk_own(fn) if isinstance(s, ast.Try) and any(call_attr(c) == "find_format" for c in calls_in(s))]
-    ok = len(ff) == 1 and any(isinstance(x, ast.Assign) and norm(x) == "sub_tree = True" for x in ff[0].body) and any("NotBranchError" in norm(h.type) and any(norm(x) == "sub_tree = False" for x in h.body) for h in ff[0].handlers)
+    ctx.check("nested-trees-excluded", where, unreachable({f"{v_ie} is not None": False, f"{v_ie} is None": True, v_sub: True, f"not {v_sub}": False}, add) and unreachable({v_sub: True, f"not {v_sub}": False}, listing), "a nested tree is neither added nor descended into")
+    ok = any("NotBranchError" in norm(h.type) and any(norm(x) == f"{v_sub} = False" for x in h.body) for h in ff[0].handlers)
     ctx.check("nested-trees-excluded", where, ok, "sub_tree is true exactly when a control directory format is found at the path")
-    ctx.check("conflict-helpers-excluded", where, unreachable({"directory in self.conflicts_related": True}, add), "a conflict helper file is never added")
+    ctx.check("conflict-helpers-excluded", where, unreachable({f"{v_dir} in self.conflicts_related": True}, add), "a conflict helper file is never added")
     makers = [(q, f) for q, f in repo.module(BI).functions().items() if any(norm(c.func) == "_SmartAddHelper" for c in calls_in(f))]
     ctx.check("conflict-helpers-excluded", f"{BI}:{makers[0][0] if makers else '?'}", bool(makers) and all("c.associated_filenames()" in norm(f) and "conflicts_related" in norm(f) for q, f in makers), "the helper-file set handed to _SmartAddHelper is built from the conflicts' associated_filenames()")
     ctx.info("skip_file", where, "AddAction.skip_file consulted: " + str(any(call_attr(c) == "skip_file" for c in calls_in(fn))))
@@ -83,26 +94,39 @@ def run(ctx):
     ctx.fact(len(g.nodes))
     listing = need(where, _listing_loops(g), "os.listdir loop")
     in_listing = lambda i: bool(g.loops_of(i)) and g.loops_of(i)[-1] in listing
+    # role binding
+    ud_loops = [n for n in walk_own(fn) if isinstance(n, ast.For) and isinstance(n.target, ast.Name) and any(call_attr(c) == "find_format" for c in calls_in(n))]
+    ctx.require(len(ud_loops) == 1, f"{where}: loop over the directories to walk not found")
+    UD, v_ud = norm(ud_loops[0].iter), norm(ud_loops[0].target)
+    v_subp = one(bound_names(fn, lambda t, n: t.startswith(f"os.path.join({v_ud}, ")), "subp = os.path.join(user_dir, name)", where)
+    v_glob = one(bound_names(fn, lambda t, n: ".is_ignored(" in t), "ignore_glob = self.is_ignored(subp)", where)
+    ffg = [s_ for s_ in walk_own(fn) if isinstance(s_, ast.Try) and any(call_attr(c) == "find_format" for c in calls_in(s_))]
+    ctx.require(len(ffg) == 1, f"{where}: try block around find_format not found")
+    v_sub = one([norm(x.targets[0]) for x in ffg[0].body if isinstance(x, ast.Assign) and norm(x.value) == "True"], "subtree = True after find_format", where)
+    v_conf = one(sorted({call_recv(c) for c in calls_in(fn) if call_attr(c) == "update" and c.args and "associated_filenames()" in norm(c.args[0])}), "conflicts_related.update(c.associated_filenames())", where)
+    rt = [r_.value for r_ in walk_own(fn) if isinstance(r_, ast.Return) and isinstance(r_.value, ast.Tuple) and len(r_.value.elts) == 2]
+    ctx.require(len(rt) == 1, f"{where}: `return added, ignored` not found")
+    v_added, v_ignored = (norm(e) for e in rt[0].elts)
     adds = [i for i in calling(g, attr="_index_add_entry") + calling(g, name="call_action") if in_listing(i)]
-    dirs = [i for i in calling(g, attr="append", recv="user_dirs") if in_listing(i)]
+    dirs = [i for i in calling(g, attr="append", recv=UD) if in_listing(i)]
     need(where, adds, "_index_add_entry / call_action in the recursive walk")
     need(where, dirs, "user_dirs.append(subp)")
 
     def unreachable_g(env, nodes):
         return not (set(nodes) & g.assume(env).reachable_from_entry())
 
-    ctl_tests = [norm(n.ast) for n in g.nodes if n.kind == "test" and "is_control_filename(subp)" in norm(n.ast)]
+    ctl_tests = [norm(n.ast) for n in g.nodes if n.kind == "test" and f"is_control_filename({v_subp})" in norm(n.ast)]
     ctx.require(len(ctl_tests) == 1, f"{where}: control filename test not found")
     ctx.check("control-files-excluded", where, unreachable_g({ctl_tests[0]: True}, adds + dirs), "a control file found while recursing is neither added nor descended into", message="the git recursive add no longer skips control files (.git, .bzr)")
-    ctx.check("ignored-excluded", where, unreachable_g({"ignore_glob is not None": True}, adds + dirs), "an ignored path found while recursing is neither added nor descended into")
+    ctx.check("ignored-excluded", where, unreachable_g({f"{v_glob} is not None": True, f"{v_glob} is None": False}, adds + dirs), "an ignored path found while recursing is neither added nor descended into")
     ign = need(where, calling(g, attr="is_ignored"), "is_ignored(...)")
     ctx.check("named-paths-not-ignore-tested", where, all(in_listing(i) for i in ign), "is_ignored is applied only to paths found by listing a directory", message="explicitly named paths are subjected to the ignore test")
-    ctx.check("nested-trees-excluded", where, unreachable_g({"subtree": True}, listing), "a nested tree is not descended into")
+    ctx.check("nested-trees-excluded", where, unreachable_g({v_sub: True, f"not {v_sub}": False}, listing), "a nested tree is not descended into")
     # every non-root directory that is about to be listed has been probed for a control directory first
     probe = need(where, calling(g, name="_mod_controldir.ControlDirFormat.find_format"), "ControlDirFormat.find_format(transport)")
-    ud = [n.id for n in g.nodes if n.kind == "for" and norm(n.ast.iter) == "user_dirs"]
+    ud = [n.id for n in g.nodes if n.kind == "for" and n.ast is ud_loops[0]]
     ctx.require(len(ud) == 1, f"{where}: loop over user_dirs not found")
-    g_nonroot = g.assume({"user_dir != ''": True, "user_dir == ''": False})
+    g_nonroot = g.assume({f"{v_ud} != ''": True, f"{v_ud} == ''": False})
     # entering the try block whose body performs the probe counts as probing (the statements before the probe in
     # that body only build its argument)
     tries = [t for t in ast.walk(fn) if isinstance(t, ast.Try) and any(g.nodes[p_].lineno >= t.body[0].lineno and g.nodes[p_].lineno <= t.body[-1].end_lineno for p_ in probe)]
@@ -111,7 +135,7 @@ def run(ctx):
     r = g_nonroot.reach([b for (b, l) in g_nonroot.succ[ud[0]] if l == "T"], avoid=set(probe), include_src=True)
     hit = sorted(set(listing) & r)
     ctx.check("nested-trees-excluded", where, not hit, "every directory other than the tree root is probed with ControlDirFormat.find_format before it is listed", message="a directory can be listed (and its content added) without having been probed for a nested control directory: nested trees of another format are swallowed into the outer tree", witness=g.show_path(g_nonroot.path([ud[0]], hit, avoid=set(probe))) if hit else None)
-    falses = [n for n in g.nodes if n.kind == "stmt" and isinstance(n.ast, ast.Assign) and norm(n.ast.targets[0]) == "subtree" and norm(n.ast.value) == "False"]
+    falses = [n for n in g.nodes if n.kind == "stmt" and isinstance(n.ast, ast.Assign) and norm(n.ast.targets[0]) == v_sub and norm(n.ast.value) == "False"]
     from ..astutil import handler_types
 
     hs = [h for h in ast.walk(fn) if isinstance(h, ast.ExceptHandler)]
@@ -119,10 +143,10 @@ def run(ctx):
         return any(h.lineno <= n.lineno <= h.end_lineno and set(t.split(".")[-1] for t in handler_types(h)) <= {"NotBranchError", "UnsupportedFormatError"} for h in hs)
     outside = [n.id for n in falses if not _in_handler(n)]
     ctx.check("nested-trees-excluded", where, not (set(outside) & g_nonroot.reachable_from_entry()), "for a non-root directory `subtree` becomes False only because the probe raised NotBranchError / UnsupportedFormatError")
-    added_conf = [i for i in calling(g, attr="_index_add_entry") if in_listing(i)] + [i for i in calling(g, attr="append", recv="added") if in_listing(i)]
-    ctx.check("conflict-helpers-excluded", where, unreachable_g({"subp in conflicts_related": True}, added_conf), "a conflict helper file is never added")
+    added_conf = [i for i in calling(g, attr="_index_add_entry") if in_listing(i)] + [i for i in calling(g, attr="append", recv=v_added) if in_listing(i)]
+    ctx.check("conflict-helpers-excluded", where, unreachable_g({f"{v_subp} in {v_conf}": True, f"{v_subp} not in {v_conf}": False}, added_conf), "a conflict helper file is never added")
     ctx.check("conflict-helpers-excluded", where, "c.associated_filenames()" in norm(fn) and "self.conflicts()" in norm(fn), "the helper-file set is built from the conflicts' associated_filenames()")
-    ctx.check("ignored-reported", where, any(call_attr(c) == "append" and "ignored.setdefault" in norm(c) for c in calls_in(fn)), "ignored paths are reported back")
+    ctx.check("ignored-reported", where, any(call_attr(c) == "append" and f"{v_ignored}.setdefault" in norm(c) for c in calls_in(fn)), "ignored paths are reported back")
 
 
 MUTANTS = [
